@@ -645,8 +645,11 @@ SEEDED["C11"] += [
 BENIGN["C11"] += [
     (OP, "    if Dz < 0:\n        return numpy.conj(fouriertransform.ft2(numpy.conj(U), d))\n    return fouriertransform.ft2(U, d)",
      "    if Dz >= 0:\n        return fouriertransform.ft2(U, d)\n    return numpy.conjugate(fouriertransform.ft2(numpy.conjugate(U), d))"),
-    # mirroring the other step instead gives the same output (exactly one of the two steps is mirrored either way)
-    (OP, "    if Dz < 0:\n        return numpy.conj(fouriertransform.ft2(numpy.conj(U), d))", "    if Dz > 0:\n        return numpy.conj(fouriertransform.ft2(numpy.conj(U), d))"),
+]
+# mirroring the other step instead gives the same two-step output (exactly one of the two steps is mirrored either way), but
+# since oneStepFresnel uses the same helper (397e02f) it turns that one round for positive distances
+SEEDED["C11"] += [
+    (OP, "    if Dz < 0:\n        return numpy.conj(fouriertransform.ft2(numpy.conj(U), d))", "    if Dz > 0:\n        return numpy.conj(fouriertransform.ft2(numpy.conj(U), d))", "G7"),
 ]
 SEEDED["C10"] += [
     (OP, "        return numpy.conj(fouriertransform.ft2(numpy.conj(U), d))", "        return numpy.conj(fouriertransform.ft2(U, d))", "L1"),
@@ -673,4 +676,36 @@ SEEDED["C13"] += [
 ]
 BENIGN["C13"] += [
     (KL, "    indices = [(np.arange(new) * old) // new", "    indices = [np.arange(new) * old // new"),
+]
+
+# ---- the fixes of the audit round (2978dfe .. 06ed172): each reverted as a variant, so that the rule that decided it stays armed
+TURBF = "aotools/turbulence/turb.py"
+SEEDED["C08"] += [(TURBF, "    r = numpy.float64(r)\n", "    r = numpy.float32(r)\n", "V0.precision")]
+SEEDED["C04"] += [(TURBF, "    r = numpy.float64(r)\n", "    r = numpy.float32(r)\n", "K10.precision"),
+                  (TURBF, "    r = numpy.float64(r)\n", "    r = numpy.asarray(r).astype('float32')\n", "K10.precision")]
+SEEDED["C05"] += [(TURBF, "    r = numpy.float64(r)\n", "    r = numpy.float32(r)\n", "S6")]
+BENIGN["C08"] += [(TURBF, "    r = numpy.float64(r)\n", "    r = numpy.asarray(r, dtype=float)\n")]
+SEEDED["C11"] += [
+    (OP, "    r1sq = (x1**2 + y1**2)\n", "    r1sq = (x1**2 + y1**2) + 1e-10\n", "G9"),
+    (OP, "    if m == 1:\n        Dz1 = z / (1+m)\n    else:\n        Dz1  = z / (1-m) #propagation distance\n",
+     "    try:\n        Dz1  = z / (1-m) #propagation distance\n    except ZeroDivisionError:\n        Dz1 = z / (1+m)\n", "G10"),
+    (OP, "    C = _fresnelTransform(Uin *numpy.exp(1j * k/(2*z) * (x1**2+y1**2)), d1, z)", "    C = fouriertransform.ft2(Uin *numpy.exp(1j * k/(2*z) * (x1**2+y1**2)), d1)", "G7"),
+]
+BENIGN["C11"] += [
+    (OP, "    if m == 1:\n        Dz1 = z / (1+m)\n    else:\n        Dz1  = z / (1-m) #propagation distance\n",
+     "    Dz1 = z / (1+m) if m == 1 else z / (1-m) #propagation distance\n"),
+]
+SEEDED["C01"] += [
+    (SC, "    return numpy.tril(cov_mat) + numpy.tril(cov_mat, -1).T\n",
+     '    return numpy.bitwise_or(cov_mat.view("int32"), cov_mat.T.view("int32")).view("float32")\n', "lower.mirror"),
+    (SC, "    return numpy.tril(cov_mat) + numpy.tril(cov_mat, -1).T\n", "    return numpy.tril(cov_mat) + numpy.tril(cov_mat).T\n", "lower.mirror"),
+]
+BENIGN["C01"] += [
+    (SC, "    return numpy.tril(cov_mat) + numpy.tril(cov_mat, -1).T\n", "    return numpy.tril(cov_mat, -1).T + numpy.tril(cov_mat)\n"),
+]
+SEEDED["C07"] += [
+    (PS, "    phs_hi = ft_phase_screen(r0, N, delta, L0, l0, FFT, seed=R)\n", "    phs_hi = ft_phase_screen(r0, N, delta, L0, l0, FFT, seed=seed)\n", "P4.independent"),
+]
+SEEDED["C20"] += [
+    (PC, "def _convert_splits_to_groups", "def _shuffled(x):\n    numpy.random.shuffle(x)\n    return x\n\n\ndef _convert_splits_to_groups", "P"),
 ]
